@@ -38,6 +38,7 @@ class Result:
         self.extra = {}
         self.trusted = ["clang 14 parser/type checker (JSON AST)", "repo contract: error handlers do not return"]
         self.seed = int(os.environ.get("VERIF_SEED", "0") or 0)
+        self.write_evidence = True
 
     # -- recording
     def rule(self, name, what, floor=0):
@@ -94,12 +95,13 @@ class Result:
                   f"{v['file']}:{v['line']} {v['msg']}")
         os.makedirs(EVIDENCE_DIR, exist_ok=True)
         replays = []
-        if new:
+        if new and self.write_evidence:
             os.makedirs(REPLAY_DIR, exist_ok=True)
         for i, (v, _) in enumerate(new):
             path = os.path.join(REPLAY_DIR, f"{self.pid}-{i}.json")
-            with open(path, "w") as f:
-                json.dump({"property": self.pid, **v}, f, indent=1, default=str)
+            if self.write_evidence:
+                with open(path, "w") as f:
+                    json.dump({"property": self.pid, **v}, f, indent=1, default=str)
             replays.append(path)
             print(f"{v['file']}:{v['line']}: rule={v['rule']} construct={v['construct']}: {v['msg']}")
             print(f"VIOLATION property={self.pid} replay={path}")
@@ -139,8 +141,9 @@ class Result:
             "wall_s": round(wall, 3),
             "violations": len(new),
         }
-        with open(os.path.join(EVIDENCE_DIR, f"{self.pid}.json"), "w") as f:
-            json.dump(ev, f, indent=1, default=str)
+        if self.write_evidence:
+            with open(os.path.join(EVIDENCE_DIR, f"{self.pid}.json"), "w") as f:
+                json.dump(ev, f, indent=1, default=str)
         summ = ", ".join(f"{n}:{r['discharged']}/{r['instances']}" for n, r in self.rules.items())
         print(f"[{self.pid}] tier={self.tier} rules {{{summ}}} analysed={self.analysed} "
               f"known={len(listed)} new={len(new)} wall={wall:.1f}s")
